@@ -35,6 +35,8 @@ def gen_cases(tier, seed):
     n = 200 if tier == "quick" else 4000
     scripted = [{"kind": "recreate-script", "profile": "recreate-script", "old": old, "new": new, "via": via, "collect": collect, "stored": stored}
                 for old in ("group", "object", "data") for new in ("group", "object", "data") for via in ("workspace", "parent") for collect in (True, False) for stored in (False, True)]
+    scripted += [{"kind": "type-script", "profile": "type-script", "as": a, "stored": st} for a in ("data-type-with-object-type-uid", "data-type-with-group-type-uid", "second-data-type-same-uid") for st in (False, True)]
+    scripted += [{"kind": "copyback-script", "profile": "copyback-script", "collect": c, "with_pg": w, "via": v} for c in (True, False) for w in (True, False) for v in ("workspace", "parent")]
     return scripted + [{"kind": "history", "profile": ["reuse", "copy", "mixed"][i % 3], "n_ops": [10, 15, 22][i % 3] if tier == "quick" else [15, 30, 45][i % 3], "gc": ["default", "seeded", "every", "aggressive"][(i // 3) % 4], "refs": ["strong", "refetch", "drop"][(i // 9) % 3]} for i in range(n)]
 
 
@@ -341,6 +343,135 @@ def run_recreate_script(case, rec):
         gc.collect()
 
 
+def run_type_script(case, rec):
+    """An explicit request to give a new type the identifier of a live type is refused without side effects, and the entities of
+    one class keep sharing one type afterwards."""
+    import os
+    import shutil
+    import tempfile
+
+    from geoh5py.groups import ContainerGroup
+    from geoh5py.objects import Points
+    from geoh5py.workspace import Workspace
+
+    from ..core import exc_origin
+
+    d = tempfile.mkdtemp(prefix="gvm_")
+    path = os.path.join(d, "w.geoh5")
+    where = "type-uid-reuse:" + case["as"]
+    try:
+        ws = Workspace.create(path)
+        first = Points.create(ws, vertices=np.zeros((4, 3)), name="first")
+        grp = ContainerGroup.create(ws, name="grp")
+        base = first.add_data({"base": {"values": np.arange(4.0)}})
+        if case["stored"]:
+            del first, grp, base
+            ws.close()
+            ws = Workspace(path, mode="r+")
+            first, grp, base = ws.get_entity("first")[0], ws.get_entity("grp")[0], ws.get_entity("base")[0]
+        owner = {"data-type-with-object-type-uid": first.entity_type, "data-type-with-group-type-uid": grp.entity_type, "second-data-type-same-uid": base.entity_type}[case["as"]]
+        prim = "FLOAT" if case["as"] != "second-data-type-same-uid" else "TEXT"
+        n_data = len(first.children)
+        refused = False
+        try:
+            first.add_data({"reuse": {"values": np.arange(4.0) if prim == "FLOAT" else "text", "entity_type": {"uid": owner.uid, "primitive_type": prim, "name": "intruder type"}, **({"association": "OBJECT"} if prim == "TEXT" else {})}})
+        except Exception as exc:  # noqa: BLE001
+            if not exc_origin(exc)[0]:
+                raise
+            refused = True
+            rec.see("refused-duplicates")
+        rec.see("reuse-requests:type")
+        kids = [c for c in first.children if hasattr(c, "values")]
+        if refused:
+            rec.check("C06.refusal-side-effect", len(first.children) == n_data, op=where, cls="Points", attr="api", detail=f"the refused request left {len(first.children) - n_data} extra child(ren) on the object")
+        second = Points.create(ws, vertices=np.zeros((3, 3)), name="second")
+        live = {}
+        for e in list(ws.groups) + list(ws.objects) + list(ws.data):
+            live.setdefault(str(e.entity_type.uid), set()).add(id(e.entity_type))
+        for t in ws.types:
+            live.setdefault(str(t.uid), set()).add(id(t))
+        clash = {u: len(v) for u, v in live.items() if len(v) > 1}
+        rec.check("C06.unique", not clash, op=where, cls="types", attr="type-uid", detail=f"several live type objects share an identifier: {clash} (request refused: {refused})")
+        rec.check("C06.type-shared", second.entity_type is first.entity_type, op=where, cls="Points", attr="", detail="two Points of one workspace no longer share a single type object")
+        found = ws.find_type(owner.uid, type(owner))
+        rec.check("C06.lookup", found is owner, op=where, cls=type(owner).__name__, attr="find_type", detail=f"find_type of the owner's identifier returns {found}")
+        _ = kids
+        ws.close()
+        raw = snap.raw_snapshot(path)
+        paths = [p for p in raw["types"] if str(owner.uid) in p] if "types" in raw else []
+        rec.check("C06.dup-file", len(paths) <= 1, op="close", cls="types", attr="", detail=f"type identifier stored under {paths}")
+        rec.nontrivial = True
+        rec.shape = ["type-script", case["as"], case["stored"]]
+        rec.sample = {"profile": "type-script", "as": case["as"]}
+    finally:
+        try:
+            ws.close()
+        except Exception:  # noqa: BLE001
+            pass
+        shutil.rmtree(d, ignore_errors=True)
+        gc.collect()
+
+
+def run_copyback_script(case, rec):
+    """Copy an object (with a property group) to another workspace, remove the original, and copy it back -- with no listing
+    read in between: every identifier is free again in the first workspace and must be kept."""
+    import os
+    import shutil
+    import tempfile
+
+    from geoh5py.objects import Points
+    from geoh5py.workspace import Workspace
+
+    d = tempfile.mkdtemp(prefix="gvm_")
+    pa, pb = os.path.join(d, "a.geoh5"), os.path.join(d, "b.geoh5")
+    where = f"copy-back:{case['via']}:{'collected' if case['collect'] else 'uncollected'}"
+    try:
+        wa, wb = Workspace.create(pa), Workspace.create(pb)
+        src = Points.create(wa, vertices=np.zeros((4, 3)), name="traveller")
+        data = src.add_data({"d1": {"values": np.arange(4.0)}, "d2": {"values": np.arange(4.0) * 2}})
+        if case["with_pg"]:
+            src.add_data_to_group(data, "pg")
+        ids = {"object": str(src.uid), "d1": str(data[0].uid), "d2": str(data[1].uid)}
+        if case["with_pg"]:
+            ids["pg"] = str(src.property_groups[0].uid)
+        there = src.copy(parent=wb)
+        for k, u in ids.items():
+            got = str(there.uid) if k == "object" else (str(there.property_groups[0].uid) if k == "pg" else str(there.get_data(k)[0].uid))
+            rec.check("C06.copy-other-ws-uid" if k != "pg" else "C06.pg-uid", got == u, op=where + ":out", cls=k, attr="uid", detail=f"{k} identifier {u} was free in the empty target but the copy got {got}")
+        rec.see("copies-other-ws")
+        if case["via"] == "workspace":
+            wa.remove_entity(src)
+        else:
+            src.parent.remove_children([src])
+        del src, data
+        if case["collect"]:
+            gc.collect()
+        rec.see("recreate-without-listing-read")
+        back = there.copy(parent=wa)
+        undecided = not case["collect"] or case["via"] == "parent"
+        for k, u in ids.items():
+            got = str(back.uid) if k == "object" else (str(back.property_groups[0].uid) if k == "pg" else str(back.get_data(k)[0].uid))
+            if undecided:
+                rec.see("copy-uid-undecided")
+                continue
+            rec.check("C06.copy-other-ws-uid" if k != "pg" else "C06.pg-uid", got == u, op=where + ":back", cls=k, attr="uid", detail=f"{k} identifier {u} was free again in the first workspace but the copy got {got}")
+        owners = [e for kind in ("objects", "data") for e in getattr(wa, kind) if str(e.uid) in ids.values()]
+        rec.check("C06.unique", len({str(e.uid) for e in owners}) == len(owners), op=where, cls="Points", attr="listing", detail="two live entities share an identifier after the copy back")
+        wa.close()
+        wb.close()
+        rec.nontrivial = True
+        rec.shape = ["copyback-script", case["collect"], case["with_pg"], case["via"]]
+        rec.sample = {"profile": "copyback-script", "where": where}
+    finally:
+        for w in ("wa", "wb"):
+            try:
+                locals()[w].close()
+            except Exception:  # noqa: BLE001
+                pass
+        shutil.rmtree(d, ignore_errors=True)
+        gc.collect()
+
+
 def rng_choice(case):
     return {"group": "object", "object": "data", "data": "group"}[case["new"]]
 
@@ -348,6 +479,10 @@ def rng_choice(case):
 def run_case(case, rec):
     if case["kind"] == "recreate-script":
         return run_recreate_script(case, rec)
+    if case["kind"] == "type-script":
+        return run_type_script(case, rec)
+    if case["kind"] == "copyback-script":
+        return run_copyback_script(case, rec)
     rng = random.Random(case["seed"])
     eng = C06Engine(rec, rng, PROP, weights=PROFILES[case["profile"]], monitors=[C06Monitor()], gc_plan=case["gc"], ref_policy=case["refs"], n_ops=case["n_ops"], second_ws=True)
     eng.run()
